@@ -97,7 +97,7 @@ def execEncW (args : List String) : String :=
         match validateFile pv f.msgs with
         | some e => status := e; break
         | none =>
-          let h : Hdr := mkHdr f.size pv f.profileVer Fit.Gen.profileVersion
+          let h : Hdr := mkHdr f.size pv f.profileVer Fit.Gen.Wire.profileVersion
           let bs := encodeFit o h f.msgs
           out := out ++ bs
           let recs := encodeMsgs o (freshEnc o) f.msgs
@@ -111,7 +111,7 @@ def errName : Err → String
   | .eof => "err:eof" | .notFit => "err:notfit" | .crcMismatch => "err:crc"
   | .defMissing => "err:defmissing" | .invalidBaseType => "err:basetype"
 
-def tsKnownFn (n : Nat) : Bool := Fit.Gen.tsKnownMesgs.contains n
+def tsKnownFn (n : Nat) : Bool := Fit.Gen.Wire.tsKnownMesgs.contains n
 
 def showItem : Item → String
   | .def_ _ d =>
@@ -161,7 +161,7 @@ def parseRt (args : List String) : Option RtIn :=
     let pvOpt := kvGet kv "pv"
     let fs := files.map fun f =>
       let pv := selectProtoVer pvOpt f.protoVer
-      ((mkHdr f.size pv f.profileVer Fit.Gen.profileVersion, f.msgs), validateFile pv f.msgs)
+      ((mkHdr f.size pv f.profileVer Fit.Gen.Wire.profileVersion, f.msgs), validateFile pv f.msgs)
     some ⟨o, fs.map (·.1), fs.findSome? (·.2)⟩
 
 def showStream (r : List Ev × Option Err) : String :=
